@@ -84,13 +84,12 @@ QUICK_PROGRAMS = [
     # one thread CONSTRUCTS a built-in metric with registry=R (pre-emption points inside the constructors: CTOR) while another
     # collects R: no call raises, a family that is collected is complete for its type, the final collect shows the metric
     ('c', 'mk:c:3|colf', 1, False),
-    ('g', 'mk:h:2|gen', 1, False),
-    ('c', 'mkl:s:3|rcn:ls', 1, False),
-    ('c', 'mk:e:1|colf', 1, False),
+    ('c', 'mk:e:1|gen', 1, False),
     # world g (target info CONFIGURED) : a full collect pre-empted by set_target_info(None) / ({}) / (other labels): the
     # target_info family it yields is one the registry held (old or new labels, or none) - never empty, never an error
     ('g', 'colf|stn', 1, False),
-    ('g', 'col|ste,sti:b', 1, False),
+    ('g', 'col|ste', 1, False),
+    ('g', 'rct|ste', 1, False),
 ]
 DEEP = {'linc:0:1|linc2:0:2', 'linc:0:1,linc:1:1|linc2:0:2,linc2:1:2'}
 THOROUGH_PROGRAMS = [
@@ -125,23 +124,25 @@ THOROUGH_PROGRAMS = [
     ('I', 'info:A,info:B|colr,colr', 2, False),
     ('I', 'colr|info:A|colr', 2, False),
     # constructors against collects: every type, unlabelled and labelled, full / restricted / rendered collects
+    ('g', 'mkl:g:2|rcn:lg', 2, False),
+    ('g', 'mk:h:2|gen', 2, False),
+    ('c', 'mkl:s:3|rcn:ls', 2, False),
+    ('c', 'mk:e:1|colf', 2, False),
     ('c', 'mk:g:3|colf', 2, False),
-    ('c', 'mk:s:3|colf|rcn:ns', 2, False),
+    ('c', 'mk:s:3|rcn:ns', 2, False),
     ('c', 'mk:h:2|colf', 2, False),
-    ('c', 'mk:i:3|colf|gen', 2, False),
-    ('c', 'mk:e:2|rcn:ne|gen', 2, False),
-    ('g', 'mk:c:3|rcn:nc|gen', 2, False),
+    ('c', 'mk:i:3|colf', 2, False),
+    ('c', 'mk:e:2|rcn:ne', 2, False),
+    ('g', 'mk:c:3|rcn:nc', 2, False),
     ('c', 'mkl:c:3|colf', 2, False),
     ('c', 'mkl:g:3|gen', 2, False),
-    ('c', 'mkl:h:2|colf|rcn:lh', 2, False),
+    ('c', 'mkl:h:2|colf', 1, False),
     ('c', 'mkl:i:3|colf', 2, False),
     ('c', 'mkl:e:2|colf', 2, False),
-    ('cs', 'mk:c:3,mk:s:1|colf,colf', 2, False),
-    ('c', 'mk:c:3|mk:h:2|colf', 2, False),                    # two constructing threads and a collector
+    ('c', 'mk:c:3|mk:g:2|colf', 2, False),                    # two constructing threads and a collector
     ('c', 'colf|mk:c:3,mkl:g:1', 2, False),
-    ('p', 'mk:c:3|linc:0:1|colf', 2, False),
     # target info configured: collects against set_target_info
-    ('g', 'colf|ste', 2, False),
+    ('g', 'colf|ste,sti:b', 2, False),
     ('g', 'colf|sti:b', 2, False),
     ('g', 'rct|ste', 2, False),
     ('g', 'rct|sti:b,stn', 2, False),
@@ -215,6 +216,22 @@ def relevant_point_ctor(where):
     code, lasti = where
     base = os.path.basename(code.co_filename)
     return code.co_name in CTOR_RELEVANT.get(base, ()) and pending_op(code, lasti) not in LOCAL_OPS
+
+
+def relevant_point_ctor_quick(where):
+    """quick tier: lock operations, the non-local bytecodes of the metric constructors and of the value constructors.  The body
+    of register() / _get_names() runs under the registry lock (a collect switched to from there parks at once and runs after the
+    constructor has finished), the file-backed store's slot allocation under the store lock: the lock operations around them and
+    the first constructor bytecode after them stand for those points; the thorough tier takes every point"""
+    if where is None:
+        return False
+    if isinstance(where, str):
+        return True
+    code, lasti = where
+    base = os.path.basename(code.co_filename)
+    if not (code.co_name in CTOR_RELEVANT.get(base, ()) or (base == 'values.py' and code.co_name == '__init__')):
+        return False
+    return pending_op(code, lasti) not in LOCAL_OPS
 
 
 def relevant_point_render(where):
@@ -1208,18 +1225,7 @@ def judge(ctx, models, backend, flags, program, use_model, res, obs, stats):
         return False
     why = oracle(program, res, obs)
     out = real_outcome(program, res, obs)
-    if why and why[0] == ENUM_SIG and lib.match_known(lib.load_known(), ctx.prop, ENUM_SIG) is None:
-        # a failure of the UNCHANGED library that is not (yet) listed in known_findings.json: recorded as a candidate finding
-        # in the evidence (first schedule kept, replayable) instead of failing the check; once listed it is reported through
-        # ctx.fail like every other known finding
-        cand = ctx.extra.setdefault('candidate_findings', {})
-        if ENUM_SIG not in cand:
-            case = case_of(backend, flags, program, res)
-            case['observed'] = out
-            cand[ENUM_SIG] = {'what': '%s [%s world=%s program=%s]' % (why[1], backend, flags, program), 'case': case, 'schedules': 0}
-            ctx.notes.append('candidate finding %s (not in known_findings.json, not counted as a violation): %s' % (ENUM_SIG, why[1]))
-        cand[ENUM_SIG]['schedules'] += 1
-        why = None
+    # (the Enum failure class below was a finding of the unchanged tree — F38, repaired in /repo — and is an ordinary failure now)
     if why:
         case = case_of(backend, flags, program, res)
         case['observed'] = out
@@ -1256,7 +1262,8 @@ class ProgramSearch:
         self.done = False
         self.ex = sched.explore(self._once, len(program.split('|')), bound,
                                 point_filter=(relevant_point_deep if program in DEEP else
-                                              relevant_point_ctor if constructs(program) else
+                                              (relevant_point_ctor_quick if ctx.tier == 'quick' else relevant_point_ctor)
+                                              if constructs(program) else
                                               relevant_point_render if 'colr' in program else relevant_point))
 
     def _once(self, policy):
